@@ -117,15 +117,16 @@ func signerListBytes(l []ecommon.Address) []byte {
 
 // cliqueCheck: reference predicate for the msc router.
 func (m *chainModel) cliqueCheck(p *node, h *types.Header) (ok bool, why string, set func(n *node)) {
-	return m.cliqueCheckOpt(p, h, false)
+	return m.cliqueCheckOpt(p, h, false, false)
 }
 
 const whyUnauthorised = "sealer is not an authorised signer"
+const whyRecentPrefix = "signer sealed block"
 
 // cliqueCheckOpt with skipAuth evaluates every clause except membership of the sealer (used to
 // decide whether a stored header violates ONLY that clause, the known finding of the msc router);
 // the state after such a header is the parent's (votes of an unauthorised sealer do not count).
-func (m *chainModel) cliqueCheckOpt(p *node, h *types.Header, skipAuth bool) (ok bool, why string, set func(n *node)) {
+func (m *chainModel) cliqueCheckOpt(p *node, h *types.Header, skipAuth, skipRecent bool) (ok bool, why string, set func(n *node)) {
 	e := m.e
 	if p == nil || !p.stored {
 		return false, "parent not stored", nil
@@ -172,14 +173,14 @@ func (m *chainModel) cliqueCheckOpt(p *node, h *types.Header, skipAuth bool) (ok
 		return false, "seal does not recover", nil
 	}
 	authorised := ps.has(sealer)
-	if !authorised && !skipAuth {
+	if (!authorised && !skipAuth) || len(ps.signers) == 0 {
 		return false, whyUnauthorised, nil
 	}
 	// recent window: the last floor(N/2) blocks of the branch; the trust root's own seal is not counted
 	q := p
-	for k := 0; k < len(ps.signers)/2 && q != nil && q != m.genesis; k++ {
+	for k := 0; k < len(ps.signers)/2 && q != nil && q != m.genesis && !skipRecent; k++ {
 		if q.sealer == sealer {
-			return false, fmt.Sprintf("signer sealed block %d within the recent window (%d)", q.h.Number.Uint64(), len(ps.signers)/2), nil
+			return false, fmt.Sprintf(whyRecentPrefix+" %d within the recent window (%d)", q.h.Number.Uint64(), len(ps.signers)/2), nil
 		}
 		q = q.parent
 	}
@@ -228,6 +229,9 @@ func (m *chainModel) cliqueGood(p *node, pick int, preferInTurn bool, target eco
 	allowed, _ := m.cliqueAllowed(p)
 	if len(allowed) == 0 {
 		allowed = ps.signers // cannot happen with the window rule; keeps the builder total
+	}
+	if len(ps.signers) == 0 {
+		panic("harness: empty signer set")
 	}
 	signer := allowed[pick%len(allowed)]
 	it := ps.signers[num%uint64(len(ps.signers))]
@@ -294,13 +298,17 @@ func (m *chainModel) cliqueBuildOp(op c29Op, p *node) (*types.Header, string) {
 	authorize := false
 	tag := ""
 	if len(op.Epoch) > 0 && !checkpoint {
-		k := clampList(op.Epoch)[0]
+		k := clampList(op.Epoch)[0] % 4 // few targets, so that majorities form
 		target = sealerAddr(k)
 		authorize = !ps.has(target)
 		if op.Gas%5 == 0 {
 			authorize = !authorize // a vote that is not meaningful
 		}
 		tag = "+vote"
+		if len(ps.signers) == 1 && !authorize {
+			// never vote the last signer out: an empty signer set ends the chain (and the router divides by zero)
+			target, tag = ecommon.Address{}, ""
+		}
 	}
 	if checkpoint {
 		tag = "+checkpoint"
@@ -328,6 +336,11 @@ func (m *chainModel) cliqueBuildOp(op c29Op, p *node) (*types.Header, string) {
 		}
 		k := out[op.Arg%len(out)]
 		h.Difficulty = big.NewInt(int64(1 + (op.Arg/3)%3/2)) // mostly 1: an outsider is never in turn
+		if op.Arg%8 != 0 {
+			// mostly without a vote: the router refuses every descendant of an unauthorised VOTE header
+			// (its snapshot replay fails), which would end the useful part of the case
+			h.Coinbase, h.Nonce = ecommon.Address{}, nonceDrop
+		}
 		resign(k)
 	case "recent":
 		_, rec := m.cliqueAllowed(p)
